@@ -519,6 +519,9 @@ pub enum SrvOrder {
     ClientFirst,
     /// the target sends `down` and closes; the client only reads
     TargetCloses,
+    /// the client sends `up` and FIN, stops reading for a while and then reads on; the target, once it
+    /// has everything, replies with `down` and closes: the reply backs up inside the server
+    ClientFinThenReply,
 }
 
 #[derive(Clone, Debug, Serialize, Deserialize)]
@@ -546,7 +549,7 @@ impl Family for SrvFinFam {
     fn strategy(&self, _tier: Tier) -> BoxedStrategy<SrvFinCase> {
         let amount = weighted_sizes(vec![(2, 0..=0), (3, 1..=100), (2, 8191..=8193), (2, 65534..=65537), (1, 300_000..=300_000), (1, 3_000_000..=3_000_000)]);
         (
-            prop_oneof![3 => Just(SrvOrder::TargetHalfCloseThenClient), 2 => Just(SrvOrder::ClientFirst), 2 => Just(SrvOrder::TargetCloses)],
+            prop_oneof![3 => Just(SrvOrder::TargetHalfCloseThenClient), 2 => Just(SrvOrder::ClientFirst), 2 => Just(SrvOrder::TargetCloses), 1 => Just(SrvOrder::ClientFinThenReply)],
             amount.clone(),
             amount,
             proptest::bool::weighted(0.3),
@@ -565,12 +568,15 @@ impl Family for SrvFinFam {
         let r = with_world(|w| {
             w.rt.block_on(async {
                 let case = c;
-                let down = keyed(4, 1, 0, case.down);
+                // (a reply that is to back up inside the server must be larger than what the sockets between
+                // the server and a client that does not read can hold)
+                let down = keyed(4, 1, 0, if case.order == SrvOrder::ClientFinThenReply && case.down >= 300_000 { 16 << 20 } else { case.down });
                 let up = keyed(4, 0, 0, case.up);
                 let mode = match case.order {
                     SrvOrder::TargetHalfCloseThenClient => TargetMode::SendThenShutdown(down.clone()),
                     SrvOrder::ClientFirst => TargetMode::Sink,
                     SrvOrder::TargetCloses => TargetMode::SendThenClose(down.clone()),
+                    SrvOrder::ClientFinThenReply => TargetMode::ReplyAfterThenClose(case.up.max(1), down.clone()),
                 };
                 let target = TcpTarget::start(IpAddr::V4(worker_ip_n(33)), mode).await?;
                 let mut cl = RefClient::connect(w.server).await?;
@@ -601,6 +607,28 @@ impl Family for SrvFinFam {
                     }
                 }
                 let data_seen = |cl: &RefClient| -> Vec<u8> { cl.seen.iter().filter(|f| f.cmd == rc::PSH && f.sid == SID).flat_map(|f| f.data.iter().copied()).collect() };
+                if case.order == SrvOrder::ClientFinThenReply {
+                    // up (at least one byte, the target waits for it), FIN, a pause without reading, then read on
+                    let up1 = if up.is_empty() { vec![0x42u8] } else { up.clone() };
+                    let mut frames: Vec<RFrame> = up1.chunks(case.frame.max(1)).map(|c| RFrame::new(rc::PSH, SID, c.to_vec())).collect();
+                    frames.push(RFrame::ctl(rc::FIN, SID));
+                    cl.send(&frames).await.map_err(|e| infra(format!("reference client write: {e}")))?;
+                    tokio::time::sleep(Duration::from_millis(if down.len() > 1_000_000 { 1500 } else { 300 })).await;
+                    let deadline = tokio::time::Instant::now() + Duration::from_secs(40);
+                    while data_seen(&cl).len() < down.len() && tokio::time::Instant::now() < deadline && !cl.eof {
+                        cl.drain(300).await;
+                    }
+                    cl.drain(600).await;
+                    // whatever end-of-stream signal the server sends, it comes after every byte of the reply
+                    let pos_fin = cl.seen.iter().position(|f| f.cmd == rc::FIN && f.sid == SID);
+                    let last_psh = cl.seen.iter().rposition(|f| f.cmd == rc::PSH && f.sid == SID);
+                    if let (Some(pf), Some(lp)) = (pos_fin, last_psh) {
+                        ensure!(lp < pf, "C08.P2", "the server sent FIN for the stream and {} more data frames of the target's {}-byte reply after it (the client had half-closed and read late)", cl.seen[pf..].iter().filter(|f| f.cmd == rc::PSH && f.sid == SID).count(), down.len());
+                    }
+                    let got = data_seen(&cl);
+                    ensure!(got == down, "C08.P2", "the client sent {} bytes and FIN and read late; the target replied with {} bytes and closed; the client received {} of them{}", up1.len(), down.len(), got.len(), if got.len() == down.len() { " (altered)" } else { "" });
+                    return Ok(());
+                }
                 let expect_down = case.order != SrvOrder::ClientFirst;
                 if expect_down {
                     // P2 towards the client: every byte the target sent before it (half-)closed arrives
@@ -702,6 +730,7 @@ impl Family for SrvFinFam {
             SrvOrder::TargetHalfCloseThenClient => "target-half-close-then-client-fin",
             SrvOrder::ClientFirst => "client-fin-first",
             SrvOrder::TargetCloses => "target-closes",
+            SrvOrder::ClientFinThenReply => "client-fin-then-a-reply-that-backs-up",
         });
         Ok(out)
     }
